@@ -286,6 +286,45 @@ def check_connection(case):
         diff = [f"the exported package is not a circuit: {e}"]
     if diff:
         return ("connection.members-disagree", f"{case!r}: {diff[0][:260]}", w)
+    if variant != "whole":
+        return None
+    # ... and afterwards: an unrelated design with a module of the SAME NAME and port name but another bundle type is
+    # elaborated, then a new parent connects to the (elaborated) child again: still member for member
+    Other = h.Bundle(name="C10OtherB")
+    Other.add(h.Signal(name="solo", width=3))
+    twin = h.Module(name="C10Child")
+    twin.bp = Other(port=True)
+    twin.t = tap(3)()(a=twin.bp.solo)
+    tp = h.Module(name="C10TwinParent")
+    tp.ob = Other()
+    tp.c = twin(bp=tp.ob)
+    try:
+        h.to_proto(tp)
+        late = h.Module(name="C10LateParent")
+        late.pb = B()
+        for path, width in leaf_paths(tree):
+            late.add(tap(width)()(a=ref(late.pb, path)), name="p_" + "_".join(path))
+        late.c = child(bp=late.pb)
+        fresh_child = h.Module(name="C10Child")
+        fresh_child.bp = B(port=True)
+        for path, width in leaf_paths(tree):
+            fresh_child.add(tap(width)()(a=ref(fresh_child.bp, path)), name="c_" + "_".join(path))
+        fresh = h.Module(name="C10LateParent")
+        fresh.pb = B()
+        for path, width in leaf_paths(tree):
+            fresh.add(tap(width)()(a=ref(fresh.pb, path)), name="p_" + "_".join(path))
+        fresh.c = fresh_child(bp=fresh.pb)
+        want2 = meaning(fresh)
+        diff = compare(want2, package_meaning(h.to_proto(late), late.name))
+    except OracleUnsupported:
+        return None
+    except InvalidPackage as e:
+        diff = [f"the exported package is not a circuit: {e}"]
+    except Exception as e:
+        return (f"connection.late-parent.raises.{type(e).__name__}", f"{case!r}: a new parent over the elaborated child, after an "
+                                                                     f"unrelated same-named module was elaborated: {str(e)[-140:]}", w)
+    if diff:
+        return ("connection.late-parent.members-disagree", f"{case!r}: {diff[0][:260]}", w)
     return None
 
 
